@@ -74,7 +74,13 @@ func emit(lg *zerolog.Logger, kind string, t, i int) {
 	case "drop": // discarded by discardHook (loggers without it write it)
 		lg.Info().Int("t", t).Int("i", i).Msg("drop")
 	case "fields":
-		lg.Info().Fields(map[string]interface{}{"t": t, "e": fmt.Errorf("err%d", i), "o": &obj{t}}).Msg("fields")
+		// key names (and their number) differ between goroutines: key scratch shared between two overlapping Fields
+		// calls shows as foreign or repeated keys; the marshaler value puts scheduling points inside the key loop
+		m := map[string]interface{}{"t": t, "e": fmt.Errorf("err%d", i), "o": &obj{t}, fmt.Sprintf("z%d", t): i}
+		for k := 0; k < t; k++ {
+			m[fmt.Sprintf("a%d_%d", t, k)] = &obj{k}
+		}
+		lg.Info().Fields(m).Msg("fields")
 	default:
 		panic("unknown kind " + kind)
 	}
@@ -419,6 +425,8 @@ func plans(tier string) []drv.Plan {
 	add("derived/plain/tiny,tiny;tiny", b2)
 	add("sharedctx/plain/tiny,nested;tiny", b2)
 	add("sharedctx/sync/fields;tiny,tiny", b2)
+	add("shared/plain/fields;fields", b2)
+	add("children/plain/fields;fields,tiny", b2)
 	add("shared/plain/marsh,nested;nested", b2)
 	add("children/plain/marsh;marsh,nested", b2)
 	add("shared/plain/scratch;scratch", 3)
